@@ -21,7 +21,9 @@ def handleUD (ins outs : List J) : Verdict :=
         let cross := ties || n1 + n2 > 12 || cdfUntiedMW n1 n2 u == cdf n1 n2 t u
         verdictOf ntag
           [("model-tables-agree", cross, "fwdDP vs Mann-Whitney table"),
-           ("udist-cdf", closeV go (.fin m) atolP rtolP, s!"go={go.str} model={ratStr m}")]
+           -- a CDF value is a sum of non-negative counts over one binomial coefficient: it is held to its own
+           -- size (1e-9 relative) however small; the absolute allowance only covers values rounding to 1
+           ("udist-cdf", closeV go (.fin m) (if m < 1 / 2 then 1 / pow2 1000 else atolP) rtolP, s!"go={go.str} model={ratStr m}")]
       else if what == "pmf" then
         let n12 : Rat := ((n1 * n2 : Nat) : Rat)
         if u < 0 || u ≥ n12 + 1 / 2 then
@@ -86,7 +88,10 @@ def handleMWU (ins outs : List J) : Verdict :=
           match firstFail pre with
           | some (c, d) => .fail c d
           | none =>
-            if closeV gp (.fin p) atolP rtolP then .ok (base ++ " exact")
+            -- LocationLess reads the CDF directly: relative accuracy in the lower tail; the other alternatives go
+            -- through 1 - CDF and only resolve absolutely
+            let atolE : Rat := if alt == .less && p < 1 / 2 then 1 / pow2 1000 else atolP
+            if closeV gp (.fin p) atolE rtolP then .ok (base ++ " exact")
             else if alt == .differs && ties && closeV gp (.fin pinned) atolP rtolP then
               .known "F1c-two-sided-exact-asymmetric-ties" s!"go={gp.str} spec={ratStr p} pinned-formula={ratStr pinned}"
             else .fail "exact-P" s!"go={gp.str} spec={ratStr p}"
